@@ -437,3 +437,34 @@ Qed.
 
 Lemma file_read_new : file_read fs_new = DecOk ∅.
 Proof. done. Qed.
+
+(** * Statements in prefix/suffix form (for Properties/C17.v) *)
+
+Lemma suffix_at_pre pre x : suffix_at (pre ++ x) (blen pre) x.
+Proof.
+  split; [rewrite blen_app; lia|]. unfold tail_at. rewrite to_nat_blen. apply drop_app.
+Qed.
+
+Theorem varint_roundtrip v :
+  v < 2 ^ 64 ->
+  (forall pre post,
+      unmarshal_uint (pre ++ marshal_uint v ++ post) (blen pre) = Ok (blen pre + size_uint v, v))
+  /\ size_uint v = blen (marshal_uint v)
+  /\ 1 <= size_uint v <= 10.
+Proof.
+  intros Hv. split; [|split].
+  - intros pre post. rewrite size_uint_spec.
+    apply (unmarshal_uint_enc _ _ _ post); [apply suffix_at_pre | done].
+  - apply size_uint_spec.
+  - rewrite size_uint_spec. apply marshal_uint_length.
+Qed.
+
+Theorem int32_roundtrip v :
+  (- 2 ^ 31 <= v < 2 ^ 31)%Z ->
+  (forall pre post,
+      unmarshal_int32 (pre ++ marshal_int32 v ++ post) (blen pre) = Ok (blen pre + 4, v))
+  /\ blen (marshal_int32 v) = 4.
+Proof.
+  intros Hv. split; [|done]. intros pre post.
+  apply (unmarshal_int32_enc _ _ _ post); [apply suffix_at_pre | done].
+Qed.
